@@ -6,7 +6,7 @@ import numpy as np
 import pykoop
 from .. import core, pipes, structural as st
 
-THEOREMS = ['Pk.C07.C07_ic', 'Pk.C07.C07_rows', 'Pk.C07.C07_step', 'Pk.C07.C07_inputs', 'Pk.C07.C07_norelift_step',
+THEOREMS = ['Pk.C07.C07_ic', 'Pk.C07.C07_rows', 'Pk.C07.C07_step', 'Pk.C07.C07_inputs', 'Pk.C07.C07_norelift_step', 'Pk.C07.C07_norelift_shapes', 'Pk.C07.C07_norelift_inputs',
             'Pk.C07.C07_episodes', 'Pk.C07.C07_predict_def', 'Pk.step_eq_predict', 'Pk.trajRelift_row']
 ALG = ['poly', 'bilinear', 'const', 'delay', 'delay']
 
@@ -165,6 +165,18 @@ def _oracle(c, rng):
         if not np.array_equal(Pn[:, nx:], Xe[:, nx:]):
             return f'episode {l} (no re-lifting): inputs not passed through unchanged', tags
         Th = eps_L[l][:, :pth]
+        Up = eps_L[l][:, pth:]
+        if Th.shape[0] != Xe.shape[0] - m + 1:
+            return (f'episode {l} (no re-lifting): {Xe.shape[0]} input samples give {Th.shape[0]} lifted rows, '
+                    f'expected {Xe.shape[0] - m + 1}'), tags
+        # every lifted-input row, the last one included, is the lifting of the supplied inputs (and predicted
+        # states) of its window
+        for j in range(Up.shape[0]):
+            W = np.hstack((Pn[j:j + m, :nx], Xe[j:j + m, nx:]))
+            ur = kp.lift_input(W, episode_feature=False)[-1]
+            if not np.allclose(ur, Up[j], rtol=1e-9, atol=1e-12):
+                return (f'episode {l} (no re-lifting): lifted input row {j} is not lift_input of the supplied '
+                        f'inputs of samples {j}..{j + m - 1}'), tags
         for j in range(1, Th.shape[0]):
             xr = kp.retract_state(Th[[j], :], episode_feature=False)[-1]
             if not np.allclose(xr, Pn[j + m - 1, :nx], rtol=1e-9, atol=1e-12):
